@@ -3,8 +3,8 @@
 //! crate's `PartialEq`, and the list generator.
 //!
 //! "Expressible" (DESIGN §6 C18 G, read off `lang/convert.rs` and `lang/ast.rs`):
-//!  * characters: any Unicode scalar except `"`; fonts, replace counts, float penalties < 2^31
-//!    (printed through `as i32`);
+//!  * characters: any Unicode scalar except `"`; replace counts, float penalties < 2^31 (printed through `as i32`);
+//!    fonts: all of u32 (read and printed through i32 <-> u32 wrap-around: `font=-1` is font 2^32-1);
 //!  * glue kind `Normal`, kern kind `Normal`, no whatsits, marks without content (the language
 //!    has no syntax for any of these);
 //!  * dimensions |s| <= 2^30-1 (TeX's legal range), plus the running sentinel for rules;
@@ -828,7 +828,9 @@ impl<'a> Gen<'a> {
     pub fn font(&mut self) -> u32 {
         match self.rng.below(10) {
             0..=4 => self.rng.below(3) as u32,
-            5 => *self.rng.pick(&[255u32, 256, 65535, 65536, (1 << 31) - 1, (1 << 31) - 2]),
+            // the language reads and prints font numbers through i32 <-> u32 wrap-around: the whole u32 range is expressible
+            5 => *self.rng.pick(&[255u32, 256, 65535, 65536, (1 << 31) - 1, (1 << 31) - 2, 1 << 31, (1 << 31) + 1, u32::MAX, u32::MAX - 65535]),
+            6 if self.rng.coin() => self.rng.next_u32(),
             6 => self.rng.below(1 << 31) as u32,
             _ => self.rng.below(40) as u32,
         }
